@@ -21,6 +21,7 @@ import (
 	"regexp"
 	"strconv"
 	"strings"
+	"sync"
 
 	"github.com/go-openapi/loads"
 	"github.com/go-openapi/runtime"
@@ -34,15 +35,18 @@ func init() {
 	mon.Register(&mon.Property{
 		ID:    "C20",
 		Level: "exploration",
-		Rule: "seeded option combinations for middleware.Spec / Redoc / RapiDoc / SwaggerUI / SwaggerUIOAuth2Callback (option structs filled directly: base path empty, '/', rooted, with trailing or doubled slashes, dot segments, a space, and without leading slash; UI path; spec path and document name; title, spec URL, asset URLs, callback URL carrying HTML/JS metacharacter markers; default or custom template; next recording or nil) and for Context.APIHandler / APIHandlerSwaggerUI / APIHandlerRapiDoc (generated description with base path, info title and operations placed on extensions/prefixes/siblings of the document paths; UIOption funcs; spec URL absolute path or absolute URL with directories, escapes, query, fragment, dot segments); " +
-			"requests: the document path exactly, with trailing slash, doubled slashes, dot segments (equal and different after cleaning), percent-escaped letters and slashes, prefixes, extensions, another letter case, unrelated paths; 9 methods; headers and bodies. " +
-			"oracle: document path = path.Join('/', base, path[, document]); interception iff path.Clean(URL.Path) equals it; spec bytes and media type; page scanned for raw markers and for the title; next must see the same method/URL/header/body exactly once and its answer must come back; page's spec reference extracted (attribute or JS string, unescaped like a browser), resolved against the page URL and fetched from the same handler. " +
+		Rule: "seeded option combinations for middleware.Spec / Redoc / RapiDoc / SwaggerUI / SwaggerUIOAuth2Callback (option structs filled directly: base path empty, '/', rooted, with trailing or doubled slashes, dot segments, a space, and without leading slash; UI path; spec path and document name; title, spec URL, asset URLs (SwaggerUI: bundle, preset, styles, both favicons) and the SwaggerUI callback URL carrying HTML/JS metacharacter markers; default or custom template; next recording or nil) and for Context.APIHandler / APIHandlerSwaggerUI / APIHandlerRapiDoc (generated description with base path, info title and operations placed on extensions/prefixes/siblings of the document paths - GET on static paths, other methods, and templates with a path parameter below or beside a document path; UIOption funcs; spec URL absolute path or absolute URL with directories, escapes, query, fragment, dot segments); " +
+			"requests: the document path exactly, with trailing slash, doubled slashes, dot segments (equal and different after cleaning), percent-escaped letters and slashes, prefixes, extensions, another letter case, unrelated paths; 9 methods; headers and bodies (JSON, and application/x-www-form-urlencoded ones that parsing the request would consume). " +
+			"oracle: document path = path.Join('/', base, path[, document]); interception iff path.Clean(URL.Path) equals it; spec bytes (compared with a copy taken before the library saw the document) and media type; page scanned for markers verbatim and for marker cores (one of the value's own quotes or '<' standing raw before its alert(N) payload, whatever the spelling of what lies between), for the title, and - stand-alone - for the spec URL unescaped for the place where it stands (HTML attribute or JS string; equal up to percent-encoding); next must find an empty response header set, see the same method/URL/header/body/ContentLength and no parsed form, exactly once, and its answer must come back with exactly the header set it wrote; page's spec reference extracted (attribute or JS string, unescaped like a browser), resolved against the page URL and fetched from the same handler. " +
 			"non-trivial = every judged request and page check; distinct by (middleware, option shape, request-path relation, method class, next present)",
 		Assumptions: []string{
 			"defaults are the documented ones: base path '/', UI path 'docs', document 'swagger.json', spec URL '/swagger.json', title 'API Documentation' (API handlers: the description's title), UI base path of the API handlers = the API base path, OAuth2 callback = <base>/<path>/oauth2-callback",
 			"'cleaned path' is path.Clean of the decoded URL path (Request.URL.Path); requests always carry an absolute path",
-			"an explicitly given OAuthCallbackURL is generated only as a clean absolute path (it is then the document path); relative spec URLs through the API handlers are not judged (outside the statement), nor spec URLs with schemes other than http/https",
+			"for the OAuth2 callback middleware an explicitly given OAuthCallbackURL is generated only as a clean absolute path (it is then the document path; SwaggerUI only renders it into the page, there it may carry markup); relative spec URLs through the API handlers are not judged (outside the statement), nor spec URLs with schemes other than http/https",
 			"custom templates: only the escaping of option values and the path behaviour are judged, not their own content",
+			"'HTML-escaped' covers the five characters < > & ' \" wherever the value stands: one of a marker's own quotes or '<' standing raw before its payload is a refutation in every context (a backslash-escaped quote inside a script element counts as escaped); the payload itself is plain text and may stand anywhere",
+			"the spec URL a stand-alone page carries is compared with the option up to percent-encoding (URL-valued attributes may be normalised), after undoing the HTML-attribute or JS-string escaping of the place where it stands",
+			"an API operation is 'reachable' when its handler runs and the answer is 200, judged for requests without body that literally instantiate the operation's template (a {parameter} = one plain segment); which of several matching operations runs is not judged here",
 			"the statement does not single out methods: the document path is expected to be answered for every method",
 			"the request handed to next may be a copy carrying another context; method, URL, header, body, host and RequestURI must be identical",
 			"Swagger base paths without a leading slash are invalid descriptions and are not generated for the API-handler flavours",
@@ -61,7 +65,14 @@ type Rq struct {
 	Target string `json:"target"` // escaped request path (and query)
 	Body   string `json:"body,omitempty"`
 	Header bool   `json:"header,omitempty"`
-	Rel    string `json:"relation"` // how the generator derived it (not used by the oracle)
+	Form   bool   `json:"form,omitempty"` // Body is sent as application/x-www-form-urlencoded
+	Rel    string `json:"relation"`       // how the generator derived it (not used by the oracle)
+}
+
+// Op is an API operation declared with another method than GET and/or with path parameters.
+type Op struct {
+	Method   string `json:"method"`
+	Template string `json:"template"`
 }
 
 // Case is one middleware configuration and the requests sent to it.
@@ -77,6 +88,8 @@ type Case struct {
 	Custom      bool   `json:"custom_template,omitempty"`
 	AssetURL    string `json:"asset_url,omitempty"`
 	CallbackURL string `json:"callback_url,omitempty"`
+	PresetURL   string `json:"preset_url,omitempty"` // SwaggerUI: SwaggerPresetURL
+	Favicon16   string `json:"favicon16,omitempty"`  // SwaggerUI: Favicon16
 	SpecBytes   mon.Q  `json:"spec_bytes,omitempty"`
 	NextNil     bool   `json:"next_nil,omitempty"`
 
@@ -87,7 +100,8 @@ type Case struct {
 	SetTitle    bool     `json:"set_title,omitempty"`
 	APIBase     string   `json:"api_base_path,omitempty"`
 	InfoTitle   string   `json:"info_title,omitempty"`
-	Templates   []string `json:"operation_templates,omitempty"`
+	Templates   []string `json:"operation_templates,omitempty"` // GET operations on static paths
+	Ops         []Op     `json:"operations,omitempty"`          // further operations: other methods, path parameters
 
 	Requests []Rq `json:"requests"`
 }
@@ -227,8 +241,16 @@ func optShape(c *Case) string {
 		return fmt.Sprintf("api=%s bp=%v:%s p=%v:%s su=%v:%s t=%v:%s it=%s cus=%v", pathShape(c.APIBase), c.SetBasePath, pathShape(c.BasePath), c.SetPath, pathShape(c.Path),
 			c.SetSpecURL, specURLShape(c.SpecURL), c.SetTitle, valueShape(c.Title), valueShape(c.InfoTitle), c.Custom)
 	}
-	return fmt.Sprintf("bp=%s p=%s sp=%s d=%s su=%s t=%s a=%s cb=%s cus=%v", pathShape(c.BasePath), pathShape(c.Path), pathShape(c.SpecPath), pathShape(c.Doc),
-		valueShape(c.SpecURL), valueShape(c.Title), valueShape(c.AssetURL), pathShape(c.CallbackURL), c.Custom)
+	cb := pathShape(c.CallbackURL)
+	if valueShape(c.CallbackURL) == "marker" {
+		cb = "marker"
+	}
+	sh := fmt.Sprintf("bp=%s p=%s sp=%s d=%s su=%s t=%s a=%s cb=%s cus=%v", pathShape(c.BasePath), pathShape(c.Path), pathShape(c.SpecPath), pathShape(c.Doc),
+		valueShape(c.SpecURL), valueShape(c.Title), valueShape(c.AssetURL), cb, c.Custom)
+	if c.PresetURL != "" || c.Favicon16 != "" {
+		sh += fmt.Sprintf(" pr=%s f16=%s", valueShape(c.PresetURL), valueShape(c.Favicon16))
+	}
+	return sh
 }
 
 func relationOf(reqPath, doc string) string {
@@ -314,17 +336,179 @@ func jsUnquote(s string) string {
 func markersOf(c *Case) map[string]string {
 	out := map[string]string{}
 	add := func(field, v string) {
-		if strings.ContainsAny(v, "<>") {
+		if strings.ContainsAny(v, "<>") || (strings.ContainsAny(v, "'\"") && rePayload.MatchString(v)) {
 			out[field] = v
 		}
 	}
 	add("title", c.Title)
 	add("spec-url", c.SpecURL)
 	add("asset-url", c.AssetURL)
+	if c.MW == "swaggerui" {
+		add("callback-url", c.CallbackURL)
+		add("preset-url", c.PresetURL)
+		add("favicon16", c.Favicon16)
+	}
 	if c.isAPI() {
 		add("info-title", c.InfoTitle)
 	}
 	return out
+}
+
+var markerFields = []string{"title", "info-title", "spec-url", "asset-url", "callback-url", "preset-url", "favicon16"}
+
+var rePayload = regexp.MustCompile(`alert\(\d+\)`)
+
+var entityName = map[byte]string{'<': "lt", '>': "gt", '&': "amp", '"': "quot", '\'': "apos"}
+
+// anySpelling is a pattern for one byte of an option value as it may stand in a page: itself, or any of its
+// HTML-, JavaScript- or URL-escaped spellings.
+func anySpelling(ch byte) string {
+	if ch >= 0x80 {
+		return string([]byte{ch}) // part of a multi-byte character: as it is
+	}
+	lit := regexp.QuoteMeta(string([]byte{ch}))
+	if ch >= '0' && ch <= '9' || ch >= 'a' && ch <= 'z' || ch >= 'A' && ch <= 'Z' {
+		return lit
+	}
+	alts := []string{lit,
+		fmt.Sprintf(`&#0*%d;`, ch), fmt.Sprintf(`&#[xX]0*(?i:%x);`, ch),
+		fmt.Sprintf(`\\u00(?i:%02x)`, ch), fmt.Sprintf(`\\u\{0*(?i:%x)\}`, ch), fmt.Sprintf(`\\x(?i:%02x)`, ch), `\\` + lit,
+		fmt.Sprintf(`%%(?i:%02x)`, ch)}
+	if n, ok := entityName[ch]; ok {
+		alts = append(alts, "&"+n+";")
+	}
+	return "(?:" + strings.Join(alts, "|") + ")"
+}
+
+// markerCore is the part of a marker value that does the damage: from one of the value's own quote or '<'
+// characters up to the alert(N) payload behind it.
+type markerCore struct {
+	start byte           // ' " or <
+	re    *regexp.Regexp // that character raw, what lies between in any spelling, a payload (any number)
+}
+
+var coreCache sync.Map // value with the payload numbers blanked -> []markerCore
+
+// coresOf builds, for every quote or '<' standing before the payload in v, the pattern "that character raw, what
+// lies between in any spelling, the payload". The patterns do not depend on the payload's number (the caller
+// compares it), so they are built once per kind of value.
+func coresOf(v string, payloadAt int) []markerCore {
+	key := v[:payloadAt]
+	if c, ok := coreCache.Load(key); ok {
+		return c.([]markerCore)
+	}
+	var out []markerCore
+	for i := 0; i < payloadAt; i++ {
+		if v[i] != '\'' && v[i] != '"' && v[i] != '<' {
+			continue
+		}
+		var sb strings.Builder
+		sb.WriteString(regexp.QuoteMeta(v[i : i+1]))
+		for j := i + 1; j < payloadAt; j++ {
+			sb.WriteString(anySpelling(v[j]))
+		}
+		sb.WriteString(`alert\(\d+\)`)
+		if re, err := regexp.Compile(sb.String()); err == nil {
+			out = append(out, markerCore{start: v[i], re: re})
+		}
+	}
+	coreCache.Store(key, out)
+	return out
+}
+
+// inScript reports whether offset i of the page lies in a script element.
+func inScript(text string, i int) bool {
+	lower := strings.ToLower(text[:i])
+	o := strings.LastIndex(lower, "<script")
+	return o >= 0 && strings.LastIndex(lower, "</script") < o
+}
+
+// rawCore finds a marker core whose leading quote or '<' stands raw in the page. A quote behind a backslash
+// inside a script element is an escaped one.
+func rawCore(text, v string) (at, end int, start byte, found bool) {
+	for _, ploc := range rePayload.FindAllStringIndex(v, -1) {
+		payload := v[ploc[0]:ploc[1]]
+		if !strings.Contains(text, payload) {
+			continue // the payload itself stands nowhere in its plain spelling
+		}
+		for _, core := range coresOf(v, ploc[0]) {
+			for _, loc := range core.re.FindAllStringIndex(text, -1) {
+				if !strings.HasSuffix(text[loc[0]:loc[1]], payload) {
+					continue // another value's payload
+				}
+				if core.start != '<' {
+					n := 0
+					for k := loc[0] - 1; k >= 0 && text[k] == '\\'; k-- {
+						n++
+					}
+					if n%2 == 1 && inScript(text, loc[0]) {
+						continue
+					}
+				}
+				return loc[0], loc[1], core.start, true
+			}
+		}
+	}
+	return 0, 0, 0, false
+}
+
+// pctDecode undoes every well-formed percent-escape: two spellings of a URL reference that differ only in which
+// bytes are percent-encoded decode to the same string.
+func pctDecode(s string) string {
+	if !strings.Contains(s, "%") {
+		return s
+	}
+	var sb strings.Builder
+	for i := 0; i < len(s); i++ {
+		if s[i] == '%' && i+3 <= len(s) {
+			if v, err := strconv.ParseUint(s[i+1:i+3], 16, 8); err == nil {
+				sb.WriteByte(byte(v))
+				i += 2
+				continue
+			}
+		}
+		sb.WriteByte(s[i])
+	}
+	return sb.String()
+}
+
+var reHrefS = regexp.MustCompile(`href='([^']*)'`)
+var reWhereJS = regexp.MustCompile(`var where = "([^"]*)"`)
+
+type pageRef struct {
+	where string // attribute or js-string
+	value string // unescaped the way a browser reads that context
+}
+
+// standaloneSpecRefs extracts every place where a stand-alone page carries the spec URL option.
+func standaloneSpecRefs(c *Case, text string) (refs []pageRef, expected int) {
+	attr := func(re *regexp.Regexp) {
+		expected++
+		if mt := re.FindStringSubmatch(text); mt != nil {
+			refs = append(refs, pageRef{"attribute", html.UnescapeString(mt[1])})
+		}
+	}
+	js := func(re *regexp.Regexp) {
+		expected++
+		if mt := re.FindStringSubmatch(text); mt != nil {
+			refs = append(refs, pageRef{"js-string", jsUnquote(mt[1])})
+		}
+	}
+	if c.Custom {
+		attr(reSpecAttrD)
+		attr(reHrefS)
+		js(reWhereJS)
+		return
+	}
+	switch c.MW {
+	case "redoc":
+		attr(reSpecAttrS)
+	case "rapidoc":
+		attr(reSpecAttrD)
+	case "swaggerui":
+		js(reSpecJS)
+	}
+	return
 }
 
 // ---- next handler ----
@@ -339,16 +523,29 @@ type nextRec struct {
 	header  http.Header
 	body    string
 	sentPtr *http.Request
+	// the response header set as next finds it on entry, before writing anything itself
+	entryHeader http.Header
+	// request state a middleware could have touched by parsing the request on the way
+	formNil, postFormNil, multipartNil bool
+	contentLength                      int64
+	bodyNil                            bool
 }
+
+// nextWrote is the complete header set next writes.
+var nextWrote = http.Header{"X-Next": {"yes"}}
 
 func (n *nextRec) ServeHTTP(w http.ResponseWriter, r *http.Request) {
 	n.calls++
+	n.entryHeader = w.Header().Clone()
 	n.same = r == n.sentPtr
 	n.method = r.Method
 	n.url = r.URL.String()
 	n.reqURI = r.RequestURI
 	n.host = r.Host
 	n.header = r.Header.Clone()
+	n.formNil, n.postFormNil, n.multipartNil = r.Form == nil, r.PostForm == nil, r.MultipartForm == nil
+	n.contentLength = r.ContentLength
+	n.bodyNil = r.Body == nil
 	if r.Body != nil {
 		b, _ := io.ReadAll(r.Body)
 		n.body = string(b)
@@ -356,6 +553,34 @@ func (n *nextRec) ServeHTTP(w http.ResponseWriter, r *http.Request) {
 	w.Header().Set("X-Next", "yes")
 	w.WriteHeader(299)
 	_, _ = io.WriteString(w, "answered by next")
+}
+
+// headerDiff lists how a header set differs from the expected one (order of names irrelevant).
+func headerDiff(got, want http.Header) []string {
+	var out []string
+	var names []string
+	for k := range got {
+		names = append(names, k)
+	}
+	for k := range want {
+		if _, ok := got[k]; !ok {
+			names = append(names, k)
+		}
+	}
+	sortStrings(names)
+	for _, k := range names {
+		g, hasG := got[k]
+		w, hasW := want[k]
+		switch {
+		case !hasW:
+			out = append(out, fmt.Sprintf("extra %s: %q", k, g))
+		case !hasG:
+			out = append(out, fmt.Sprintf("missing %s: %q", k, w))
+		case strings.Join(g, "\x00") != strings.Join(w, "\x00"):
+			out = append(out, fmt.Sprintf("%s: %q instead of %q", k, g, w))
+		}
+	}
+	return out
 }
 
 // ---- building the handler under test ----
@@ -380,7 +605,8 @@ func buildStandalone(c *Case) *built {
 	}
 	switch c.MW {
 	case "spec":
-		b.spec = []byte(c.SpecBytes)
+		b.spec = []byte(c.SpecBytes) // the expectation: a copy the library never sees
+		given := []byte(c.SpecBytes)
 		var opts []middleware.SpecOption
 		if c.SpecPath != "" {
 			opts = append(opts, middleware.WithSpecPath(c.SpecPath))
@@ -388,14 +614,15 @@ func buildStandalone(c *Case) *built {
 		if c.Doc != "" {
 			opts = append(opts, middleware.WithSpecDocument(c.Doc))
 		}
-		b.h = middleware.Spec(c.BasePath, b.spec, next, opts...)
+		b.h = middleware.Spec(c.BasePath, given, next, opts...)
 	case "redoc":
 		b.h = middleware.Redoc(middleware.RedocOpts{BasePath: c.BasePath, Path: c.Path, SpecURL: c.SpecURL, Title: c.Title, Template: tpl, RedocURL: c.AssetURL}, next)
 	case "rapidoc":
 		b.h = middleware.RapiDoc(middleware.RapiDocOpts{BasePath: c.BasePath, Path: c.Path, SpecURL: c.SpecURL, Title: c.Title, Template: tpl, RapiDocURL: c.AssetURL}, next)
 	case "swaggerui":
 		b.h = middleware.SwaggerUI(middleware.SwaggerUIOpts{BasePath: c.BasePath, Path: c.Path, SpecURL: c.SpecURL, Title: c.Title, Template: tpl,
-			SwaggerURL: c.AssetURL, SwaggerStylesURL: c.AssetURL, Favicon32: c.AssetURL, OAuthCallbackURL: c.CallbackURL}, next)
+			SwaggerURL: c.AssetURL, SwaggerStylesURL: c.AssetURL, Favicon32: c.AssetURL, OAuthCallbackURL: c.CallbackURL,
+			SwaggerPresetURL: c.PresetURL, Favicon16: c.Favicon16}, next)
 	case "oauth2":
 		b.h = middleware.SwaggerUIOAuth2Callback(middleware.SwaggerUIOpts{BasePath: c.BasePath, Path: c.Path, SpecURL: c.SpecURL, Title: c.Title, Template: tpl,
 			SwaggerURL: c.AssetURL, OAuthCallbackURL: c.CallbackURL}, next)
@@ -413,6 +640,10 @@ func decoys() {
 	_ = middleware.SwaggerUIOAuth2Callback(middleware.SwaggerUIOpts{BasePath: "/decoy", Title: "DECOY-OAUTH2-TITLE"}, nil)
 }
 
+var reTmplParam = regexp.MustCompile(`\{([^{}/]+)\}`)
+
+func (o Op) key() string { return o.Method + " " + o.Template }
+
 func renderAPI(c *Case) []byte {
 	doc := map[string]interface{}{
 		"swagger":  "2.0",
@@ -427,6 +658,22 @@ func renderAPI(c *Case) []byte {
 		paths[t] = map[string]interface{}{"get": map[string]interface{}{
 			"responses": map[string]interface{}{"200": map[string]interface{}{"description": "ok"}}}}
 	}
+	for _, op := range c.Ops {
+		item, _ := paths[op.Template].(map[string]interface{})
+		if item == nil {
+			item = map[string]interface{}{}
+			paths[op.Template] = item
+		}
+		o := map[string]interface{}{"responses": map[string]interface{}{"200": map[string]interface{}{"description": "ok"}}}
+		var params []interface{}
+		for _, mt := range reTmplParam.FindAllStringSubmatch(op.Template, -1) {
+			params = append(params, map[string]interface{}{"name": mt[1], "in": "path", "required": true, "type": "string"})
+		}
+		if params != nil {
+			o["parameters"] = params
+		}
+		item[strings.ToLower(op.Method)] = o
+	}
 	doc["paths"] = paths
 	var buf bytes.Buffer
 	enc := json.NewEncoder(&buf)
@@ -437,11 +684,12 @@ func renderAPI(c *Case) []byte {
 
 func buildAPI(c *Case) (*built, error) {
 	raw := renderAPI(c)
+	want := append([]byte(nil), raw...) // the expectation: copied before the loader and the handlers see the document
 	doc, err := loads.Analyzed(json.RawMessage(raw), "")
 	if err != nil {
 		return nil, err
 	}
-	b := &built{spec: raw}
+	b := &built{spec: want}
 	handled := []string{}
 	b.handled = &handled
 	api := untyped.NewAPI(doc)
@@ -450,6 +698,13 @@ func buildAPI(c *Case) (*built, error) {
 		api.RegisterOperation("get", tmpl, runtime.OperationHandlerFunc(func(interface{}) (interface{}, error) {
 			*b.handled = append(*b.handled, tmpl)
 			return map[string]interface{}{"op": tmpl}, nil
+		}))
+	}
+	for _, op := range c.Ops {
+		key := op.key()
+		api.RegisterOperation(strings.ToLower(op.Method), op.Template, runtime.OperationHandlerFunc(func(interface{}) (interface{}, error) {
+			*b.handled = append(*b.handled, key)
+			return map[string]interface{}{"op": key}, nil
 		}))
 	}
 	ctx := middleware.NewContext(doc, api, nil)
@@ -492,6 +747,8 @@ type answer struct {
 	// what was sent, recorded before the handler saw it (the handler gets the same *http.Request)
 	sentURL, sentURI, sentHost string
 	sentHeader                 http.Header
+	sentLength                 int64
+	sentBodyNil                bool
 }
 
 func send(b *built, rq *Rq) (a answer, ok bool) {
@@ -502,6 +759,9 @@ func send(b *built, rq *Rq) (a answer, ok bool) {
 	var req *http.Request
 	if pv, _ := mon.Catch(func() { req = httptest.NewRequest(rq.Method, "http://example.test"+rq.Target, body) }); pv != nil {
 		return a, false
+	}
+	if rq.Form {
+		req.Header.Set("Content-Type", "application/x-www-form-urlencoded")
 	}
 	if rq.Header {
 		req.Header.Set("X-Probe", "kept")
@@ -517,6 +777,7 @@ func send(b *built, rq *Rq) (a answer, ok bool) {
 	rw := httptest.NewRecorder()
 	a.req = req
 	a.sentURL, a.sentURI, a.sentHost, a.sentHeader = req.URL.String(), req.RequestURI, req.Host, req.Header.Clone()
+	a.sentLength, a.sentBodyNil = req.ContentLength, req.Body == nil
 	a.panicV, a.stack = mon.Catch(func() { b.h.ServeHTTP(rw, req) })
 	res := rw.Result()
 	a.status = res.StatusCode
@@ -558,23 +819,41 @@ func mwName(c *Case) string {
 func checkPage(m *mon.M, c *Case, page []byte, one *Case) {
 	text := string(page)
 	marks := markersOf(c)
-	for _, field := range []string{"title", "info-title", "spec-url", "asset-url"} {
+	tk := "default-template"
+	if c.Custom {
+		tk = "custom-template"
+	}
+	around := func(i, j int) string {
+		lo, hi := i-40, j+20
+		if lo < 0 {
+			lo = 0
+		}
+		if hi > len(text) {
+			hi = len(text)
+		}
+		return strconv.QuoteToASCII(text[lo:hi])
+	}
+	for _, field := range markerFields {
 		v, has := marks[field]
-		if has && strings.Contains(text, v) {
+		if has && strings.ContainsAny(v, "<>") && strings.Contains(text, v) {
 			i := strings.Index(text, v)
-			lo := i - 40
-			if lo < 0 {
-				lo = 0
+			m.Violate("unescaped-option-value/"+mwName(c), fmt.Sprintf("%s page (%s) carries the %s option verbatim: …%s…", c.MW, tk, field, around(i, i+len(v))), one)
+			return
+		}
+	}
+	// partial escaping: one of the value's own quotes or '<' stands raw before the payload
+	for _, field := range markerFields {
+		v, has := marks[field]
+		if !has || !rePayload.MatchString(v) {
+			continue
+		}
+		m.Class("marker-cores-searched/" + field)
+		if i, j, start, found := rawCore(text, v); found {
+			kind := "raw-quote"
+			if start == '<' {
+				kind = "raw-lt"
 			}
-			hi := i + len(v) + 20
-			if hi > len(text) {
-				hi = len(text)
-			}
-			tk := "default-template"
-			if c.Custom {
-				tk = "custom-template"
-			}
-			m.Violate("unescaped-option-value/"+mwName(c), fmt.Sprintf("%s page (%s) carries the %s option verbatim: …%s…", c.MW, tk, field, strconv.QuoteToASCII(text[lo:hi])), one)
+			m.Violate("unescaped-option-value/"+mwName(c)+"/"+field+"-"+kind, fmt.Sprintf("%s page (%s): the %s option %q stands in the page with its %q unescaped before the payload: …%s…", c.MW, tk, field, v, string(start), around(i, j)), one)
 			return
 		}
 	}
@@ -584,6 +863,22 @@ func checkPage(m *mon.M, c *Case, page []byte, one *Case) {
 		}
 	} else {
 		m.Violate("page-lacks-option-value/"+mwName(c)+"/title", fmt.Sprintf("%s page has no <title>: %s", c.MW, clipB(page)), one)
+	}
+	// stand-alone pages: the spec URL option is in the page, escaped for the place where it stands
+	if !c.isAPI() {
+		want := orDefault(c.SpecURL, "/swagger.json")
+		refs, expected := standaloneSpecRefs(c, text)
+		if len(refs) < expected {
+			m.Violate("page-lacks-option-value/"+mwName(c)+"/spec-url", fmt.Sprintf("%s page (%s): %d of the %d places that carry the spec URL were found: %s", c.MW, tk, len(refs), expected, clipB(page)), one)
+			return
+		}
+		for _, ref := range refs {
+			m.Class("standalone-spec-url-compared/" + ref.where)
+			if pctDecode(ref.value) != pctDecode(want) {
+				m.Violate("page-lacks-option-value/"+mwName(c)+"/spec-url", fmt.Sprintf("%s page (%s): the spec URL in the %s reads %q, configured %q", c.MW, tk, ref.where, ref.value, want), one)
+				return
+			}
+		}
 	}
 }
 
@@ -722,8 +1017,29 @@ func runCase(m *mon.M, c *Case) {
 				m.Violate("next-request-modified", fmt.Sprintf("%s: next saw %s", what, strings.Join(diffs, "; ")), one)
 				break
 			}
+			// the request was not parsed or measured on the way: no form populated, same length, body present as sent
+			if !n.formNil || !n.postFormNil || !n.multipartNil {
+				m.Violate("next-request-modified/form-parsed", fmt.Sprintf("%s: the request was sent unparsed, next saw Form==nil:%v PostForm==nil:%v MultipartForm==nil:%v", what, n.formNil, n.postFormNil, n.multipartNil), one)
+				break
+			}
+			if n.contentLength != a.sentLength || n.bodyNil != a.sentBodyNil {
+				m.Violate("next-request-modified/content-length", fmt.Sprintf("%s: next saw ContentLength %d (Body==nil: %v), sent %d (Body==nil: %v)", what, n.contentLength, n.bodyNil, a.sentLength, a.sentBodyNil), one)
+				break
+			}
+			if rq.Form {
+				m.Class("next:form-post-passed")
+			}
 			if a.status != 299 || a.hdr.Get("X-Next") != "yes" || string(a.body) != "answered by next" {
 				m.Violate("next-answer-altered", fmt.Sprintf("%s: next answered 299 but the client saw %d %s", what, a.status, clipB(a.body)), one)
+				break
+			}
+			// next starts from an empty response header set, and the client gets exactly the header set next wrote
+			if len(n.entryHeader) > 0 {
+				m.Violate("next-answer-altered/header-preset", fmt.Sprintf("%s: next found the response header already holding %v", what, n.entryHeader), one)
+				break
+			}
+			if d := headerDiff(a.hdr, nextWrote); len(d) > 0 {
+				m.Violate("next-answer-altered/header-set", fmt.Sprintf("%s: next wrote the header set %v, the client saw %v (%s)", what, nextWrote, a.hdr, strings.Join(d, "; ")), one)
 				break
 			}
 			if n.same {
@@ -749,6 +1065,38 @@ func minimal(c *Case, rq *Rq) *Case {
 		one.Requests = []Rq{*rq}
 	}
 	return &one
+}
+
+func inList(l []string, v string) bool {
+	for _, x := range l {
+		if x == v {
+			return true
+		}
+	}
+	return false
+}
+
+var reParamValue = regexp.MustCompile(`^[A-Za-z0-9._~-]+$`)
+
+// tmplMatch reports whether the path literally instantiates the template: same segments, a {parameter}
+// standing for one plain non-empty segment.
+func tmplMatch(tmpl, p string) bool {
+	ts, ps := strings.Split(tmpl, "/"), strings.Split(p, "/")
+	if len(ts) != len(ps) {
+		return false
+	}
+	for i := range ts {
+		if strings.HasPrefix(ts[i], "{") && strings.HasSuffix(ts[i], "}") {
+			if !reParamValue.MatchString(ps[i]) || ps[i] == "." || ps[i] == ".." {
+				return false
+			}
+			continue
+		}
+		if ts[i] != ps[i] {
+			return false
+		}
+	}
+	return true
 }
 
 func apiFull(c *Case, tmpl string) string {
@@ -824,9 +1172,8 @@ func runAPICase(m *mon.M, c *Case) {
 					c.MW, ui, ref, abs.String(), target, sa.status, sa.hdr.Get("Content-Type"), clipB(sa.body), c.SetSpecURLValue()), one)
 			default:
 				m.Class("spec-reference-followed/" + sshape)
-				if cls == "with-document-name" {
-					specDoc = path.Clean(abs.Path)
-				}
+				// the spec is served at the location the page references, whether the option named a document or not
+				specDoc = path.Clean(abs.Path)
 			}
 		}
 	} else {
@@ -887,10 +1234,32 @@ func runAPICase(m *mon.M, c *Case) {
 					wantOp = t
 				}
 			}
+			// operations with other methods or path parameters: every declared operation whose template the
+			// literal request path instantiates (which one wins among several is the router's business: C05)
+			var wantOps []string
+			if ra.req.URL.EscapedPath() == reqPath && rq.Body == "" {
+				// (a request with a body is the router's to refuse for its media type: C06)
+				for _, op := range c.Ops {
+					if rq.Method == op.Method && tmplMatch(apiFull(c, op.Template), reqPath) {
+						wantOps = append(wantOps, op.key())
+					}
+				}
+			}
 			if wantOp != "" && !(specDoc == "" && isSpec) {
 				m.Class("expect:operation/" + rel)
-				if len(*b.handled) != 1 || (*b.handled)[0] != wantOp || ra.status != 200 {
+				reached := len(*b.handled) == 1 && ((*b.handled)[0] == wantOp || inList(wantOps, (*b.handled)[0]))
+				if !reached || ra.status != 200 {
 					m.Violate("api-operation-shadowed/"+rel, fmt.Sprintf("%s: operation GET %s was not reached (handlers run: %v, status %d %s)", what, wantOp, *b.handled, ra.status, clipB(ra.body)), one)
+				}
+			} else if len(wantOps) > 0 && !(specDoc == "" && isSpec) {
+				kind := "parameterised"
+				if rq.Method != "GET" {
+					kind = "non-get"
+				}
+				m.Class("expect:operation/" + kind + "/" + rel)
+				reached := len(*b.handled) == 1 && inList(wantOps, (*b.handled)[0])
+				if !reached || ra.status != 200 {
+					m.Violate("api-operation-shadowed/"+kind+"/"+rel, fmt.Sprintf("%s: none of the operations %v was reached (handlers run: %v, status %d %s)", what, wantOps, *b.handled, ra.status, clipB(ra.body)), one)
 				}
 			} else {
 				m.Class("expect:router/" + rel)
@@ -993,8 +1362,12 @@ func genTargets(r *rand.Rand, doc string, n int) []Rq {
 			rq.Header = true
 		}
 		if rq.Method == "POST" || rq.Method == "PUT" || rq.Method == "PATCH" {
-			if r.Intn(2) == 0 {
+			switch r.Intn(4) {
+			case 0, 1:
 				rq.Body = `{"payload":"` + strconv.Itoa(r.Intn(1000)) + `"}`
+			case 2: // a body that parsing the request as a form would consume
+				rq.Body = "payload=" + strconv.Itoa(r.Intn(1000)) + "&format=json&a=b+c%21"
+				rq.Form = true
 			}
 		}
 		if r.Intn(6) == 0 {
@@ -1081,6 +1454,18 @@ func genStandalone(r *rand.Rand) *Case {
 		if c.MW == "swaggerui" || c.MW == "oauth2" {
 			c.CallbackURL = pick(r, callbackPool)
 		}
+		if c.MW == "swaggerui" {
+			// rendered into the page only (a JS string and two attributes): these may carry markup
+			if r.Intn(4) == 0 {
+				c.CallbackURL = maybeMarker(r, callbackPool[3:], 80)
+			}
+			if r.Intn(3) == 0 {
+				c.PresetURL = maybeMarker(r, assetPool, 50)
+			}
+			if r.Intn(3) == 0 {
+				c.Favicon16 = maybeMarker(r, assetPool, 50)
+			}
+		}
 	}
 	c.Requests = genTargets(r, docPath(c), 12)
 	return c
@@ -1116,6 +1501,10 @@ func genAPI(r *rand.Rand) *Case {
 	if c.SetSpecURL && c.SpecURL != "" {
 		if u, err := url.Parse(c.SpecURL); err == nil && u.Path != "" {
 			specDoc = path.Clean("/" + u.Path)
+			if strings.HasSuffix(u.Path, "/") {
+				// no document named: requests are aimed around the default name in that directory
+				specDoc = path.Join("/", u.Path, "swagger.json")
+			}
 		}
 	}
 	// operations: unrelated ones, and ones placed next to the document paths
@@ -1167,11 +1556,58 @@ func genAPI(r *rand.Rand) *Case {
 	}
 	sortStrings(c.Templates)
 
+	// operations with other methods and with a path parameter, next to the document paths
+	opset := map[string]bool{}
+	underOp := func(method, full string) {
+		if full == "" || strings.ContainsAny(full, " %?#") || strings.HasSuffix(full, "/") || strings.Contains(full, "//") || strings.Contains(full, "/.") {
+			return
+		}
+		if bp != "" && !strings.HasPrefix(full, bp+"/") {
+			return
+		}
+		t := strings.TrimPrefix(full, bp)
+		if t == "" || t == "/" || (method == "GET" && tset[t]) || opset[method+" "+t] {
+			return
+		}
+		opset[method+" "+t] = true
+		c.Ops = append(c.Ops, Op{Method: method, Template: t})
+	}
+	otherMethod := func() string { return pick(r, []string{"POST", "POST", "PUT", "DELETE", "PATCH"}) }
+	for _, d := range []string{ui, specDoc} {
+		if r.Intn(3) == 0 {
+			underOp(otherMethod(), d+"x")
+		}
+		if r.Intn(3) == 0 {
+			underOp(otherMethod(), d+"/sub")
+		}
+		if r.Intn(3) == 0 {
+			underOp(pick(r, []string{"GET", "GET", "POST", "DELETE"}), d+"/{id}")
+		}
+		if r.Intn(3) == 0 {
+			underOp(pick(r, []string{"GET", "GET", "POST", "PUT"}), strings.TrimSuffix(path.Dir(d), "/")+"/{id}")
+		}
+		if r.Intn(6) == 0 {
+			underOp(otherMethod(), d) // another method on the document path itself: shadowing it is allowed
+		}
+	}
+	if r.Intn(4) == 0 {
+		underOp("POST", bp+"/items")
+	}
+
 	// requests: around the UI path, around the spec path, and every operation
 	c.Requests = append(c.Requests, genTargets(r, ui, 6)...)
 	c.Requests = append(c.Requests, genTargets(r, specDoc, 6)...)
 	for _, t := range c.Templates {
 		c.Requests = append(c.Requests, Rq{Method: "GET", Target: escTarget(apiFull(c, t)), Rel: "operation"})
+	}
+	for _, op := range c.Ops {
+		for _, v := range []string{"p42q", "v1.json"} {
+			full := reTmplParam.ReplaceAllString(apiFull(c, op.Template), v)
+			c.Requests = append(c.Requests, Rq{Method: op.Method, Target: escTarget(full), Rel: "operation"})
+			if !strings.Contains(op.Template, "{") {
+				break
+			}
+		}
 	}
 	return c
 }
